@@ -66,15 +66,15 @@ def run(ck: Check, repo: Repo) -> None:
     ck.ob("C07.1", load_cp, load_cp.node, reads["load"][0] == reads["load_checkpoint"][0] and reads["load"][1] == reads["load_checkpoint"][1],
           "both loaders read the same per-module and per-optimizer keys", detail=str({k: (sorted(v[0]), sorted(v[1])) for k, v in reads.items()}), construct="loader agreement")
     # writer: covers every evolvable attribute, registry travels with the attributes
-    wsrc = ast.unparse(writer.node)
-    ck.ob("C07.1", writer, writer.node, "for attr in agent.evolvable_attributes():" in wsrc and "raise TypeError" in wsrc, "every evolvable attribute is saved as optimizer or as module (anything else is an error)",
+    covers, together, fields = _writer_shape(writer)
+    ck.ob("C07.1", writer, writer.node, covers, "every evolvable attribute is saved as optimizer or as module (anything else is an error)",
           construct="writer covers evolvable attributes")
-    ck.ob("C07.1", writer, writer.node, "attribute_dict = EvolvableAlgorithm.inspect_attributes(agent)" in wsrc and "attribute_dict['network_info'] = network_info" in wsrc,
+    ck.ob("C07.1", writer, writer.node, together,
           "plain attributes (hyper-parameters, counters, registry) and network info are saved together", construct="writer attribute dict")
-    ck.ob("C07.1", writer, writer.node, "f'{attr}_state_dict': obj.state_dict()" in wsrc and "f'{attr}_init_dict': init_dict" in wsrc and "init_dict = obj.init_dict" in wsrc,
+    ck.ob("C07.1", writer, writer.node, fields,
           "the saved architecture is the module's current init_dict and the saved weights its current state dict", construct="writer module fields")
-    _order(ck, repo, load, "loaded_modules")
-    _order(ck, repo, load_cp, None)
+    _order(ck, repo, load, True)
+    _order(ck, repo, load_cp, False)
     _completeness(ck, repo)
     _alias_attrs(ck, repo, writer)
     _prefix(ck, repo, (load, load_cp))
